@@ -47,7 +47,10 @@ def deep(doc):
         extra.append(('keys', g.id, [str(k) for k in g.sourceById.keys()]))
         for k, src in g.sourceById.items():
             if hasattr(src, 'data'):
-                extra.append(('src', str(k), tuple(src.data.shape), str(src.data.dtype), type(src.components).__name__, list(src.components)))
+                shape = tuple(src.data.shape)
+                if len(shape) == 1 and len(src.components):
+                    shape = (shape[0] // len(src.components), len(src.components))     # assigned unshaped (as the constructor takes it); save() gives it the documented shape
+                extra.append(('src', str(k), shape, str(src.data.dtype), type(src.components).__name__, list(src.components)))
         for p in g.primitives:
             extra.append(('prim', type(p).__name__, None if p.index is None else (tuple(p.index.shape), str(p.index.dtype))))
     s['_deep'] = extra
@@ -55,9 +58,9 @@ def deep(doc):
 
 
 UNMODELLED = [
-    '<library_animations xmlns="{ns}"><animation id="anim1"><source id="anim1-in"><float_array id="anim1-in-a" count="2">0 1</float_array>'
+    '<library_animations xmlns="{ns}"><asset><created>2001-01-01T00:00:00</created><modified>2001-01-01T00:00:00</modified></asset><animation id="anim1"><source id="anim1-in"><float_array id="anim1-in-a" count="2">0 1</float_array>'
     '<technique_common><accessor source="#anim1-in-a" count="2" stride="1"><param name="TIME" type="float"/></accessor></technique_common></source>'
-    '<sampler id="anim1-s"><input semantic="INPUT" source="#anim1-in"/></sampler><channel source="#anim1-s" target="n/t.X"/></animation></library_animations>',
+    '<sampler id="anim1-s"><input semantic="INPUT" source="#anim1-in"/></sampler><channel source="#anim1-s" target="n/t.X"/></animation><extra><technique profile="ANIM"><note>kept</note></technique></extra></library_animations>',
     '<library_physics_materials xmlns="{ns}"><physics_material id="pm1"><technique_common><dynamic_friction>0.5</dynamic_friction></technique_common></physics_material></library_physics_materials>',
     '<extra xmlns="{ns}"><technique profile="MINE"><foo xmlns="urn:other" a="1">text<bar/>tail</foo></technique></extra>',
     '<library_animation_clips xmlns="{ns}"><animation_clip id="clip1" start="0" end="1"><instance_animation url="#anim1"/></animation_clip></library_animation_clips>',
@@ -102,6 +105,15 @@ def base_bytes(rng, kind):
                 pos = rng.randint(1, scene_pos[0] if scene_pos else len(kids))
             root.insert(pos, el)
             inj.append(canon(el))
+    # what <scene> may hold besides the instance of the default visual scene
+    for sc in [c for c in root if c.tag == '{%s}scene' % ns]:
+        if rng.random() < 0.6:
+            ET.SubElement(sc, '{%s}instance_physics_scene' % ns, url='#physics')
+            inj.append('scene/instance_physics_scene')
+        if rng.random() < 0.5:
+            ex = ET.SubElement(sc, '{%s}extra' % ns)
+            ET.SubElement(ex, '{%s}technique' % ns, profile='SCENE').text = 'kept'
+            inj.append('scene/extra')
     return ET.tostring(root), inj
 
 
@@ -226,8 +238,14 @@ def check_unmodelled(rng, kind):
     root = ET.fromstring(out)
     managed = ('asset', 'scene', 'library_geometries', 'library_controllers', 'library_lights', 'library_cameras', 'library_images',
                'library_effects', 'library_materials', 'library_nodes', 'library_visual_scenes')
-    got = [canon(c) for c in root if c.tag.split('}')[-1] not in managed]
-    orig = [canon(c) for c in ET.fromstring(data) if c.tag.split('}')[-1] not in managed]
+    def unmanaged(r):
+        out = [canon(c) for c in r if c.tag.split('}')[-1] not in managed]
+        for sc in r:
+            if sc.tag.split('}')[-1] == 'scene':
+                out += [canon(c) for c in sc if c.tag.split('}')[-1] != 'instance_visual_scene']
+        return out
+    got = unmanaged(root)
+    orig = unmanaged(ET.fromstring(data))
     if got != orig:
         return ('unmodelled-lost', 'document-level content the library does not model changed across load+save in %s: %d elements before, %d after'
                 % (kind, len(orig), len(got)))
@@ -373,6 +391,10 @@ def prefix_case(seed):
     attr = {'library_geometries': 'geometries', 'library_controllers': 'controllers', 'library_lights': 'lights',
             'library_cameras': 'cameras', 'library_images': 'images', 'library_effects': 'effects', 'library_materials': 'materials',
             'library_nodes': 'nodes', 'library_visual_scenes': 'scenes'}
+    for name in libs:
+        # a library the source synchronises that this check has no table entry for: follow the naming rule of the others
+        attr.setdefault(name, name.replace('library_', '').replace('visual_scenes', 'scenes'))
+    libs = [name for name in libs if hasattr(doc, attr[name])]
     ref = editgen.referenced(doc)
     root = doc.xmlnode.getroot()
     lab = c02.Labels()
